@@ -37,6 +37,10 @@ def run(ctx):
     r4_accidentals(ctx)
     r5_clefs(ctx)
     r6_clef_in_force(ctx)
+    from . import c04
+    ctx.alias = {'R6': 'R8'}
+    c04.r6_chords(ctx)           # the conversion callback reaches every note of a chord
+    ctx.alias = {}
     if ctx.tier == 'thorough':
         from .. import regen
         regen.check(ctx, 'R7')
